@@ -55,7 +55,8 @@ class Scenario:
         self.rfw = digital_rf.DigitalRFWriter(self.ch, np.int16, 3600, 1000, self.k, n, d, uuid_str="c20",
                                               is_complex=False, num_subchannels=1, is_continuous=True,
                                               marching_periods=False)
-        self.mdw = digital_rf.DigitalMetadataWriter(self.md, sc, fc, n, d, PREFIX)
+        nf = common.number_form
+        self.mdw = digital_rf.DigitalMetadataWriter(self.md, nf(res.rng, sc), nf(res.rng, fc), nf(res.rng, n), nf(res.rng, d), PREFIX)
         self.readers = []
         self.spec = {}
         self.has_opt = {}
